@@ -1,6 +1,7 @@
 import EpgVerif.Props.C02
 import EpgVerif.Props.C02Run
 import EpgVerif.Tie.DiffSites
+import EpgVerif.Props.C02Fam
 open EpgVerif.Props.C02
 #print axioms coeff_hasDerivAt
 #print axioms relaxation_defined
@@ -19,3 +20,7 @@ open EpgVerif.Props.C02
 #print axioms famT
 #print axioms famE
 #print axioms EpgVerif.Tie.DiffSites.sites_as_modelled
+#print axioms phi_defined
+#print axioms precession_defined
+#print axioms famPhi
+#print axioms famP
